@@ -11,6 +11,12 @@ from rules.common import strip_casts, const_of, local_writes, written_value
 
 def canon(fn, n, inline=True, depth=0, keep=()):
     """canonical string of expression n; locals with a single definition are inlined"""
+    # strip casts, but keep an explicit conversion to bool visible (it changes the value)
+    while n is not None and n.get('k') in ('ImplicitCastExpr', 'CStyleCastExpr', 'CXXFunctionalCastExpr', 'CXXStaticCastExpr',
+                                           'ParenExpr') and kids(n):
+        if n['k'] != 'ImplicitCastExpr' and n.get('t') == 'bool':
+            return 'bool(%s)' % canon(fn, kids(n)[0], inline, depth, keep)
+        n = kids(n)[-1]
     n = strip_casts(n)
     if n is None:
         return '?'
@@ -38,6 +44,8 @@ def canon(fn, n, inline=True, depth=0, keep=()):
             return canon(fn, d, inline, depth + 1, keep)
         if r['k'] in ('Func', 'Method'):
             return short(r['n'])
+    if k == 'SubstNonTypeTemplateParmExpr' and n.get('tparm'):
+        return n['tparm']
     if 'cv' in n and k in ('IntegerLiteral', 'CharacterLiteral', 'CXXBoolLiteralExpr'):
         return str(n['cv'])
     if k in ('CStyleCastExpr', 'CXXFunctionalCastExpr', 'CXXStaticCastExpr', 'ImplicitCastExpr'):
